@@ -96,6 +96,8 @@ def run_text(job):
         out['dump'] = O.dump_db(db)
     except O.OutOfModel:
         out['dump'] = None
+    except O.NotADatabase:
+        out['dump'] = None      # the renderings decide (a non-string attribute makes them raise)
     return out
 
 
